@@ -228,6 +228,26 @@ def run_sequence(chk, kind, st, els, r, length):
             if q[name] != want[name]:
                 chk.violation(f"quantities/{kind}/{name.split('(')[0]}-depends-on-derivation", dict(rep, quantity=name, derived=q[name], source_selection=want[name]))
                 return
+        # whole-array quantities: total_bounds (= NaN-ignoring fold of the selected rows' bounds of the source) and the
+        # default-argument Hilbert distance (which uses it)
+        sel = [q0["bounds"][i] for i in cur_idx if i is not None]
+        def fold(col, fn):
+            vals = [row[col] for row in sel if row[col] != "nan"]
+            return fn(vals) if vals else "nan"
+        want_tb = [fold(0, min), fold(1, min), fold(2, max), fold(3, max)]
+        try:
+            tb = [fnum(x) for x in cur.total_bounds]
+            tbx = [fnum(x) for x in cur.total_bounds_x]; tby = [fnum(x) for x in cur.total_bounds_y]
+        except Exception as ex:  # noqa: BLE001
+            chk.violation(f"quantities/{kind}/total_bounds-raises-{common.err_kind(ex)}", dict(rep, error=repr(ex)[:200])); return
+        if tb != want_tb or tbx != [want_tb[0], want_tb[2]] or tby != [want_tb[1], want_tb[3]]:
+            chk.violation(f"quantities/{kind}/total_bounds-depends-on-derivation", dict(rep, derived=tb, derived_x=tbx, derived_y=tby,
+                                                                                      from_selected_rows=want_tb)); return
+        if len(cur) and "nan" not in want_tb:
+            hd = [int(x) for x in cur.hilbert_distance(p=6)]
+            hx = [int(x) for x in cur.hilbert_distance(total_bounds=[float(v) for v in want_tb], p=6)]
+            if hd != hx:
+                chk.violation(f"quantities/{kind}/default-hilbert_distance-depends-on-derivation", dict(rep, default=hd, explicit=hx)); return
         chk.nontriv(hash((kind, st, json.dumps(canon_el(els)), tuple(hist))))
         chk.count("step:" + desc.split("(")[0].split("[")[0])
     chk.sample(dict(kind=kind, subtype=st, elements=els[:3], history=hist), cap=8)
